@@ -343,6 +343,14 @@ parse_next_record_header:
             goto encodeResponse;
         }
 
+        if (ssl->rec.len < AEAD_TAG_LEN(ssl) + 1)
+        {
+            /* A protected record holds at least the TLSInnerPlaintext
+               type octet in addition to the tag. */
+            ssl->err = SSL_ALERT_UNEXPECTED_MESSAGE;
+            psTraceErrr("Protected record too short\n");
+            goto encodeResponse;
+        }
         ptLen = ssl->rec.len - AEAD_TAG_LEN(ssl);
         ptLen--; /* TLSInnerPlaintext type. */
 
